@@ -36,6 +36,12 @@ def render_all(obj) -> dict:
             out[d + "/param"] = sql + " || " + repr(p.values)
         except Exception as ex:  # noqa
             out[d + "/param"] = "EXC:" + type(ex).__name__
+    if "_selects" in getattr(obj, "__dict__", {}) or "base_query" in getattr(obj, "__dict__", {}):
+        # a statement is also looked at the way an embedding statement sees it (bracketed, alias printed)
+        try:
+            out["generic/embedded"] = obj.get_sql(ctxs()["generic"].copy(subquery=True, with_alias=True))
+        except Exception as ex:  # noqa
+            out["generic/embedded"] = "EXC:" + type(ex).__name__
     if type(obj).__str__ is not object.__str__:
         try:
             out["str"] = str(obj)
@@ -61,6 +67,11 @@ def render_one(obj, key: str) -> str:
     """the rendering render_all files under `key` (a context name, name/param, or str), and nothing else"""
     from pypika_tortoise.terms import Parameterizer
 
+    if key == "generic/embedded":
+        try:
+            return obj.get_sql(ctxs()["generic"].copy(subquery=True, with_alias=True))
+        except Exception as ex:  # noqa
+            return "EXC:" + type(ex).__name__
     if key == "str":
         try:
             return str(obj)
